@@ -303,7 +303,7 @@ func (c *fnCtx) objMethodType(fv *fnVar, m string, at ast.Node) *fnType {
 	}
 	for i, p := range ft.params {
 		switch p.k {
-		case "int", "byte", "bool", "string", "elem", "struct", "unit":
+		case "int", "byte", "bool", "string", "elem", "struct", "unit", "u64":
 		case "slice":
 			if !(ft.variadic && i == len(ft.params)-1) || p.elem.k == "slice" || p.elem.k == "map" {
 				c.lostAt(at, "method %s.%s with a slice parameter (aliasing)", o.field, m)
@@ -314,7 +314,7 @@ func (c *fnCtx) objMethodType(fv *fnVar, m string, at ast.Node) *fnType {
 	}
 	for _, p := range ft.res {
 		switch p.k {
-		case "int", "byte", "bool", "string", "elem", "struct", "unit":
+		case "int", "byte", "bool", "string", "elem", "struct", "unit", "u64":
 		case "map":
 			// handed back by content; which map object it is, is not represented
 		default:
